@@ -29,6 +29,22 @@ func (f *tr11) Call(s *slip.Scope, args slip.List, depth int) slip.Object {
 	return args[0]
 }
 
+// c11rec records the plist handed to :init
+var recorded slip.Object
+var recordedSet bool
+
+type rec11 struct{ slip.Function }
+
+func (f *rec11) Call(s *slip.Scope, args slip.List, depth int) slip.Object {
+	// args[0] is the &rest list of the whopper: (plist)
+	recordedSet = true
+	recorded = nil
+	if l, ok := args[0].(slip.List); ok && len(l) > 0 {
+		recorded = l[0]
+	}
+	return nil
+}
+
 func defineTr() {
 	defer func() { _ = recover() }()
 	slip.Define(
@@ -39,6 +55,15 @@ func defineTr() {
 		},
 		&slip.FuncDoc{Name: "c11tr", Args: []*slip.DocArg{{Name: "id", Type: "fixnum"}}, Return: "fixnum",
 			Text: "verification trace"},
+		&slip.UserPkg)
+	slip.Define(
+		func(args slip.List) slip.Object {
+			f := rec11{Function: slip.Function{Name: "c11rec", Args: args}}
+			f.Self = &f
+			return &f
+		},
+		&slip.FuncDoc{Name: "c11rec", Args: []*slip.DocArg{{Name: "args", Type: "list"}}, Return: "object",
+			Text: "verification: record the :init plist"},
 		&slip.UserPkg)
 }
 
@@ -57,6 +82,9 @@ type form struct {
 	Keys   []binding `json:"keywords,omitempty"`
 	Gets   string    `json:"gettable,omitempty"` // "", "all" or space separated variable indices
 	Sets   string    `json:"settable,omitempty"`
+	Inits  string    `json:"inittable,omitempty"`     // "", "all" or listed variable indices
+	InitKW []int     `json:"init_keywords,omitempty"` // (:init-keywords ...) names (indices into keyNames)
+	Reqs   []int     `json:"required_init_keywords,omitempty"`
 	Daemon string    `json:"daemon,omitempty"` // primary before after whopper
 	Msg    string    `json:"message,omitempty"`
 	ID     int       `json:"id,omitempty"`
@@ -67,7 +95,12 @@ type form struct {
 }
 
 var varNames = []string{"x", "y"}
-var keyNames = []string{":k1", ":k2"}
+// init keyword names; the first two are also the names of the variables: one name can be an inittable
+// instance variable (declared by one flavor) and an init keyword (declared by another)
+var keyNames = []string{":x", ":y", ":k1", ":k2"}
+
+// what make-instance is given: the keyword names plus one no flavor declares
+var initNames = []string{":x", ":y", ":k1", ":k2", ":zz"}
 
 // message -> (Lisp keyword, Gallina term)
 var msgs = []struct{ lisp, coq string }{
@@ -120,7 +153,12 @@ func gnats(xs []int) string {
 
 func (f *form) coq() string {
 	if f.Kind == "flavor" {
-		return fmt.Sprintf("DFlavor %d %s %s %s %s %s", f.F, gbindings(f.Vars), gnats(f.Comps), gbindings(f.Keys), accCoq(f.Gets), accCoq(f.Sets))
+		keys := append([]binding{}, f.Keys...)
+		for _, k := range f.InitKW {
+			keys = append(keys, binding{Name: k})
+		}
+		return fmt.Sprintf("DFlavor %d %s %s %s %s %s {| io_inits := %s; io_reqs := %s |}", f.F, gbindings(f.Vars), gnats(f.Comps),
+			gbindings(keys), accCoq(f.Gets), accCoq(f.Sets), accCoq(f.Inits), gnats(f.Reqs))
 	}
 	return fmt.Sprintf("DMethod %d %s (%s) %d %s", f.F, daemonCoq[f.Daemon], msgs[msgIndex(f.Msg)].coq, f.ID, common.GBool(f.Cont))
 }
@@ -168,7 +206,22 @@ func (f *form) lisp(name func(int) string) string {
 			}
 			opts += " (:default-init-plist " + strings.Join(ks, " ") + ")"
 		}
+		if len(f.InitKW) > 0 {
+			var ns []string
+			for _, k := range f.InitKW {
+				ns = append(ns, keyNames[k])
+			}
+			opts += " (:init-keywords " + strings.Join(ns, " ") + ")"
+		}
 		opts += accLisp(":gettable-instance-variables", f.Gets) + accLisp(":settable-instance-variables", f.Sets)
+		opts += accLisp(":inittable-instance-variables", f.Inits)
+		if len(f.Reqs) > 0 {
+			var ns []string
+			for _, k := range f.Reqs {
+				ns = append(ns, keyNames[k])
+			}
+			opts += " (:required-init-keywords " + strings.Join(ns, " ") + ")"
+		}
 		return fmt.Sprintf("(defflavor %s (%s) (%s)%s)", name(f.F), strings.Join(vs, " "), strings.Join(cs, " "), opts)
 	}
 	switch f.Daemon {
@@ -241,12 +294,31 @@ func genProgram(r *common.Rng, n, nm int, ctx *common.Ctx) []form {
 			f.Vars[0], f.Vars[1] = f.Vars[1], f.Vars[0]
 		}
 		for k := range keyNames {
-			if r.Chance(35) {
+			p := 35
+			if k < len(varNames) {
+				p = 14 // a keyword with the name of a variable
+			}
+			switch {
+			case r.Chance(p):
 				b := binding{Name: k, Val: i64(int64(200*i + k))}
 				if r.Chance(15) {
 					b.Val = nil
 				}
 				f.Keys = append(f.Keys, b)
+			case r.Chance(14):
+				f.InitKW = append(f.InitKW, k)
+			}
+		}
+		if r.Chance(12) { // required init keywords: among the flavor's own keywords that are not variable names
+			for _, b := range f.Keys {
+				if b.Name >= len(varNames) && r.Chance(70) {
+					f.Reqs = append(f.Reqs, b.Name)
+				}
+			}
+			for _, k := range f.InitKW {
+				if k >= len(varNames) && r.Chance(70) {
+					f.Reqs = append(f.Reqs, k)
+				}
 			}
 		}
 		var have []string
@@ -263,6 +335,18 @@ func genProgram(r *common.Rng, n, nm int, ctx *common.Ctx) []form {
 			if len(have) == 2 && r.Bool() {
 				f.Gets = strings.Join(have, " ")
 			}
+		}
+		switch x := r.Intn(100); {
+		case x < 22:
+			f.Inits = "all"
+		case x < 45 && len(have) > 0:
+			f.Inits = common.Pick(r, have)
+			if len(have) == 2 && r.Chance(30) {
+				f.Inits = strings.Join(have, " ")
+			}
+		}
+		if f.Inits != "" {
+			ctx.Hist("inittable:" + map[bool]string{true: "all", false: "listed"}[f.Inits == "all"])
 		}
 		switch x := r.Intn(100); {
 		case x < 12:
@@ -427,13 +511,22 @@ type sendObs struct {
 	Res   string  `json:"result"`
 }
 
+type makeObs struct {
+	Args  string            `json:"args"`
+	Err   string            `json:"error,omitempty"`
+	Vars  map[string]string `json:"vars,omitempty"`
+	Plist string            `json:"init_plist,omitempty"`
+}
+
 type flavorObs struct {
 	F       int                 `json:"flavor"`
 	Prec    []string            `json:"precedence"`
 	Inherit []string            `json:"inherit"`
 	Vars    map[string]string   `json:"instance_vars"`
 	Keys    map[string]string   `json:"keywords"`
-	Init    map[string]bool     `json:"init_keyword_accepted"`
+	Makes   []makeObs           `json:"make_instance"`
+	parts   []string
+	baseArg string // the required init keywords (own and inherited) every plain make-instance is given
 	Tables  map[string][]string `json:"tables"`
 	Sends   []sendObs           `json:"sends"`
 	Bound   []sendObs           `json:"bound_sends"`
@@ -444,6 +537,8 @@ type runner struct {
 	ctx    *common.Ctx
 	scope  *slip.Scope
 	caseNo int
+	// init argument lists per flavor, drawn once per program so that every order of it is asked the same
+	makeLists map[int][][]int
 }
 
 func (rn *runner) resultOf(o common.Outcome) (coq, shown string) {
@@ -489,8 +584,8 @@ func anyToVal(v any) (coq, shown string) {
 }
 
 // observe one flavor; id maps Lisp flavor names of this case back to numbers
-func (rn *runner) observe(f int, name string, id func(string) int) flavorObs {
-	ob := flavorObs{F: f, Vars: map[string]string{}, Keys: map[string]string{}, Init: map[string]bool{}, Tables: map[string][]string{}}
+func (rn *runner) observe(f int, name string, id func(string) int, reqs map[int][]int) flavorObs {
+	ob := flavorObs{F: f, Vars: map[string]string{}, Keys: map[string]string{}, Tables: map[string][]string{}}
 	fl := flavors.Find(name)
 	var parts []string
 	parts = append(parts, fmt.Sprintf("o_f := %d", f))
@@ -521,9 +616,23 @@ func (rn *runner) observe(f int, name string, id func(string) int) flavorObs {
 		}
 	}
 	parts = append(parts, "o_inherit := "+common.GList(inh))
+	need := map[int]bool{}
+	for _, k := range reqs[f] {
+		need[k] = true
+	}
+	for _, s := range ob.Inherit {
+		for _, k := range reqs[id(s)] {
+			need[k] = true
+		}
+	}
+	for k := range keyNames {
+		if need[k] {
+			ob.baseArg += " " + keyNames[k] + " 0"
+		}
+	}
 	// defaults of a fresh instance
 	var vitems []string
-	mk := common.EvalTimeout(rn.scope, fmt.Sprintf("(make-instance '%s)", name), 2*time.Second)
+	mk := common.EvalTimeout(rn.scope, fmt.Sprintf("(make-instance '%s%s)", name, ob.baseArg), 2*time.Second)
 	inst, _ := mk.Value.(*flavors.Instance)
 	for v, vn := range varNames {
 		if inst == nil {
@@ -551,7 +660,7 @@ func (rn *runner) observe(f int, name string, id func(string) int) flavorObs {
 	parts = append(parts, "o_vars := "+common.GList(vitems))
 	// keywords
 	kw, _ := simple["keywords"].(map[string]any)
-	var kitems, iitems []string
+	var kitems []string
 	for k, kn := range keyNames {
 		if val, has := kw[kn]; has {
 			c, s := anyToVal(val)
@@ -561,11 +670,8 @@ func (rn *runner) observe(f int, name string, id func(string) int) flavorObs {
 			kitems = append(kitems, fmt.Sprintf("(%d, None)", k))
 			ob.Keys[kn] = "-"
 		}
-		o := common.EvalTimeout(rn.scope, fmt.Sprintf("(make-instance '%s %s 1)", name, kn), 2*time.Second)
-		ob.Init[kn] = o.Err == ""
-		iitems = append(iitems, fmt.Sprintf("(%d, %s)", k, common.GBool(o.Err == "")))
 	}
-	parts = append(parts, "o_keys := "+common.GList(kitems), "o_init := "+common.GList(iitems))
+	parts = append(parts, "o_keys := "+common.GList(kitems))
 	// method tables
 	shapes := map[string][]string{}
 	if ml, ok := simple["methods"].([]any); ok {
@@ -605,7 +711,7 @@ func (rn *runner) observe(f int, name string, id func(string) int) flavorObs {
 			arg = " nil"
 		}
 		rn.scope.Let(slip.Symbol("c11inst"), nil)
-		mk := common.EvalTimeout(rn.scope, fmt.Sprintf("(setq c11inst (make-instance '%s))", name), 2*time.Second)
+		mk := common.EvalTimeout(rn.scope, fmt.Sprintf("(setq c11inst (make-instance '%s%s))", name, ob.baseArg), 2*time.Second)
 		if mk.Err != "" {
 			sitems = append(sitems, fmt.Sprintf("(%s, %s, ([], ROther))", m.coq, garg))
 			ob.Sends = append(ob.Sends, sendObs{Msg: m.lisp, Res: "!make-instance: " + mk.Err + " " + mk.Msg})
@@ -622,7 +728,7 @@ func (rn *runner) observe(f int, name string, id func(string) int) flavorObs {
 			continue // the bound setter takes its value from an unordered scope
 		}
 		// Instance.BoundReceive on a fresh instance
-		mk = common.EvalTimeout(rn.scope, fmt.Sprintf("(setq c11inst (make-instance '%s))", name), 2*time.Second)
+		mk = common.EvalTimeout(rn.scope, fmt.Sprintf("(setq c11inst (make-instance '%s%s))", name, ob.baseArg), 2*time.Second)
 		bi, _ := mk.Value.(*flavors.Instance)
 		if bi == nil {
 			continue
@@ -635,8 +741,112 @@ func (rn *runner) observe(f int, name string, id func(string) int) flavorObs {
 		ob.Bound = append(ob.Bound, sendObs{Msg: m.lisp, Trace: bt, Res: bs})
 	}
 	parts = append(parts, "o_sends := "+common.GList(sitems), "o_bound := "+common.GList(bitems))
-	ob.coq = "{| " + strings.Join(parts, ";\n        ") + " |}"
+	ob.parts = parts
 	return ob
+}
+
+// observeMakes: (make-instance 'name k1 z1 ...) for every single init name and some larger argument lists in
+// random order. What :init receives is recorded by a whopper defined on the flavor itself (it is the outermost
+// one and does not continue), which is why this comes after every other observation of the case.
+func (rn *runner) observeMakes(ob *flavorObs, name string) {
+	if o := common.EvalTimeout(rn.scope, fmt.Sprintf("(defwhopper (%s :init) (&rest args) (c11rec args))", name), 2*time.Second); o.Err != "" {
+		panic("C11: recording whopper: " + o.Err + " " + o.Msg)
+	}
+	lists, have := rn.makeLists[ob.F]
+	if !have {
+		lists = append(lists, []int{}) // no init arguments at all (required init keywords must then be missed)
+	}
+	for k := range initNames {
+		if have {
+			break
+		}
+		lists = append(lists, []int{k})
+	}
+	for n := 0; n < 7 && !have; n++ {
+		var l []int
+		for k := range initNames {
+			p := 45
+			if k == len(initNames)-1 {
+				p = 12 // the undeclared one
+			}
+			if rn.ctx.Rng.Chance(p) {
+				l = append(l, k)
+			}
+		}
+		for i := len(l) - 1; i > 0; i-- {
+			j := rn.ctx.Rng.Intn(i + 1)
+			l[i], l[j] = l[j], l[i]
+		}
+		if len(l) >= 2 {
+			lists = append(lists, l)
+		}
+	}
+	rn.makeLists[ob.F] = lists
+	var items []string
+	for _, l := range lists {
+		var largs, gargs []string
+		for _, k := range l {
+			z := int64(300 + 10*len(largs) + k)
+			largs = append(largs, fmt.Sprintf("%s %d", initNames[k], z))
+			gargs = append(gargs, fmt.Sprintf("(%d, %s)", k, common.GZ(z)))
+		}
+		recorded = nil
+		recordedSet = false
+		o := common.EvalTimeout(rn.scope, fmt.Sprintf("(make-instance '%s %s)", name, strings.Join(largs, " ")), 2*time.Second)
+		mo := makeObs{Args: strings.Join(largs, " ")}
+		inst, _ := o.Value.(*flavors.Instance)
+		if o.Err != "" || inst == nil {
+			mo.Err = o.Err + ": " + o.Msg
+			items = append(items, fmt.Sprintf("(%s, None)", common.GList(gargs)))
+			rn.ctx.Hist("make-instance:refused")
+		} else {
+			mo.Vars = map[string]string{}
+			var vitems []string
+			for v, vn := range varNames {
+				if val, has := inst.Vars[vn]; has {
+					switch tv := val.(type) {
+					case nil:
+						vitems = append(vitems, fmt.Sprintf("(%d, Some None)", v))
+						mo.Vars[vn] = "nil"
+					case slip.Fixnum:
+						vitems = append(vitems, fmt.Sprintf("(%d, Some (Some %s))", v, common.GZ(int64(tv))))
+						mo.Vars[vn] = fmt.Sprint(int64(tv))
+					default:
+						vitems = append(vitems, fmt.Sprintf("(%d, Some (Some (-1)%%Z))", v))
+						mo.Vars[vn] = slip.ObjectString(val)
+					}
+				} else {
+					vitems = append(vitems, fmt.Sprintf("(%d, None)", v))
+					mo.Vars[vn] = "-"
+				}
+			}
+			var pitems []string
+			mo.Plist = slip.ObjectString(recorded)
+			if !recordedSet {
+				pitems = append(pitems, "(98, 0%Z)") // :init was not sent
+				mo.Plist = "!no :init"
+			}
+			if pl, ok := recorded.(slip.List); ok {
+				for i := 0; i+1 < len(pl); i += 2 {
+					k := 99
+					for j, n := range initNames {
+						if slip.ObjectString(pl[i]) == n {
+							k = j
+						}
+					}
+					z := int64(-1)
+					if fx, ok := pl[i+1].(slip.Fixnum); ok {
+						z = int64(fx)
+					}
+					pitems = append(pitems, fmt.Sprintf("(%d, %s)", k, common.GZ(z)))
+				}
+			}
+			items = append(items, fmt.Sprintf("(%s, Some (%s, %s))", common.GList(gargs), common.GList(vitems), common.GList(pitems)))
+			rn.ctx.Hist("make-instance:accepted")
+		}
+		ob.Makes = append(ob.Makes, mo)
+	}
+	ob.parts = append(ob.parts, "o_makes := "+common.GList(items))
 }
 
 func boundSend(scope *slip.Scope, inst *flavors.Instance, msg string) (out common.Outcome) {
@@ -717,15 +927,24 @@ func (rn *runner) runHistory(hist []form, nflav int) (string, caseDesc, string) 
 		gforms = append(gforms, f.coq())
 		gouts = append(gouts, oc)
 	}
+	reqs := map[int][]int{}
+	for i := range forms {
+		if forms[i].Kind == "flavor" && forms[i].Out == "Ok" {
+			reqs[forms[i].F] = forms[i].Reqs
+		}
+	}
 	var obs []flavorObs
 	var gobs []string
 	for i := 1; i <= nflav; i++ {
 		if flavors.Find(name(i)) == nil {
 			continue
 		}
-		ob := rn.observe(i, name(i), id)
-		obs = append(obs, ob)
-		gobs = append(gobs, ob.coq)
+		obs = append(obs, rn.observe(i, name(i), id, reqs))
+	}
+	for k := range obs {
+		rn.observeMakes(&obs[k], name(obs[k].F))
+		obs[k].coq = "{| " + strings.Join(obs[k].parts, ";\n        ") + " |}"
+		gobs = append(gobs, obs[k].coq)
 	}
 	term := fmt.Sprintf("{| k_forms := %s;\n     k_outs := %s;\n     k_obs := [%s] |}", common.GList(gforms), common.GList(gouts),
 		strings.Join(gobs, ";\n       "))
@@ -790,6 +1009,7 @@ func Run(ctx *common.Ctx) {
 	// small programs: every admissible order
 	for p := 0; p < nSmall; p++ {
 		progNo++
+		rn.makeLists = map[int][][]int{}
 		n := 2 + ctx.Rng.Intn(2)
 		nm := 2 + ctx.Rng.Intn(2)
 		if n == 3 && nm == 3 && ctx.Rng.Bool() {
@@ -806,6 +1026,7 @@ func Run(ctx *common.Ctx) {
 	// larger programs: sampled orders of four kinds
 	for p := 0; p < nLarge; p++ {
 		progNo++
+		rn.makeLists = map[int][][]int{}
 		n := 3 + ctx.Rng.Intn(3)
 		if ctx.Rng.Chance(10) {
 			n = 1 + ctx.Rng.Intn(2)
@@ -822,6 +1043,7 @@ func Run(ctx *common.Ctx) {
 	// components, a flavor defined twice (the implementation must refuse them and stay unchanged)
 	for p := 0; p < nErr; p++ {
 		progNo++
+		rn.makeLists = map[int][][]int{}
 		n := 2 + ctx.Rng.Intn(3)
 		prog := genProgram(ctx.Rng, n, 2+ctx.Rng.Intn(6), ctx)
 		order := sampleOrder(ctx.Rng, prog, 2)
@@ -860,12 +1082,17 @@ func Run(ctx *common.Ctx) {
 		":default-init-plist for :k1/:k2, :gettable/:settable-instance-variables bare or listed) and up to 14 defmethod/defwhopper forms " +
 		"(primary/:before/:after/whopper on :init :go :hop :x :y :set-x); small programs in every admissible order (<=40), larger ones in " +
 		"four sampled orders (all flavors first, textual, uniform, base methods last), plus histories with inadmissible forms; every " +
-		"flavor observed through class-precedence, Simplify, make-instance, send and BoundReceive. A case is distinct by its forms+observations " +
+		"flavor observed through class-precedence, Simplify, make-instance, send and BoundReceive; flavors also carry " +
+		":inittable-instance-variables (bare/listed), :init-keywords, :required-init-keywords, with keyword names that coincide with " +
+		"variable names of other flavors, and every flavor is instantiated with each single init name and up to seven larger argument " +
+		"lists (variables of the instance and the plist received by :init observed). A case is distinct by its forms+observations " +
 		"and non-trivial when a method is defined on a flavor that another flavor inherits."
 	header := "From C11 Require Import Model Spec Corr.\nOpen Scope nat_scope.\n"
 	footer := "Definition res := Eval vm_compute in check_all cases.\nPrint res.\n" +
 		"Definition sends_inside_guard := Eval vm_compute in guard_count cases.\nPrint sends_inside_guard.\n" +
-		"Definition sends_outside_guard := Eval vm_compute in outside_count cases.\nPrint sends_outside_guard.\n"
+		"Definition sends_outside_guard := Eval vm_compute in outside_count cases.\nPrint sends_outside_guard.\n" +
+		"Definition make_instances := Eval vm_compute in make_count cases.\nPrint make_instances.\n" +
+		"Definition make_instances_inside_guard := Eval vm_compute in make_guard_count cases.\nPrint make_instances_inside_guard.\n"
 	ctx.WriteShards("cases", header, "case", footer, terms, descs, 16)
 	ctx.ReplayKnownLisp()
 	replayBound(ctx)
